@@ -329,6 +329,7 @@ func c02Body(c *ev.Ctx) {
 		}
 		runCases(r, "BN254 compiled DeletionMbuCircuit (11,2) after (1,12) was compiled in the same process", hc, c02Eval)
 	}
+	runPairIsolation(c, c02Pairs())
 	r.finish("C02")
 	c.Set("rule", "cases = inputs of the circuit/gadget (complete over F_47/F_5, all leaf-vector states x operation menu on BN254); non-trivial = reference relation holds; every case decided by the implementation (R1CS search with all hint values incl. the is-zero inverse / gnark engine) and by the reference relation")
 	c.Assume("BN254 values range over the alphabets {0,1,r-1} (+ boundary indices); whole-field exhaustiveness is over F_5 and F_47")
